@@ -141,14 +141,14 @@ def _case(draw, tier):
             inc = draw(st.sampled_from(["missing", "ext", "ext2", "outside", "outside_root", "outside_symlink", "dir", "nested",
                                         "defines_task", "syntax", "runtime", "runtime_noargs", "runtime_raise", "nonstr"]))
         elif scenario != "mixed":
-            inc = draw(st.sampled_from(["none", "none", "ok", "ok_abs", "ok_func"]))
+            inc = draw(st.sampled_from(["none", "none", "ok", "ok_abs", "ok_func", "ok_kw"]))
         else:
             inc = draw(st.sampled_from(["none"] * 12 + ["ok", "ok_abs", "missing", "ext", "ext2", "outside", "outside", "outside_root", "outside_symlink", "dir", "nested",
                                                         "defines_task", "syntax", "runtime", "nonstr"]))
         uses_threads = False
         if inc != "none":
             stmts.append({"t": "include", "how": inc})
-            uses_threads = inc in ("ok", "ok_abs", "ok_func")
+            uses_threads = inc in ("ok", "ok_abs", "ok_func", "ok_kw")
         n = draw(st.sampled_from([1, 2, 3, 4, 5]))
         names_pool = list(NAME_OK)
         # deps may point to later-defined tasks of this file (forward) and to tasks of the other package
@@ -206,6 +206,7 @@ INC_FILES = {
     "ok_func": ("funcs.cond", "import os.path\nBASE = 4\n\ndef scaled(n):\n    return n * BASE\n\n"
                               "SIZES = list(x * BASE for x in range(2))\nTHREADS = scaled(1) - 1\njoin = lambda a: os.path.join('d', a)\n"),
     "ok_abs": ("common.cond", "THREADS = 3\n"),
+    "ok_kw": ("common.cond", "THREADS = 3\nNAMES = ['x', 'y']\n"),
     "nested": ("nest.cond", "include('common.cond')\nZ = 1\n"),
     "defines_task": ("deft.cond", "run_command(name='inc', run='true')\n"),
     "syntax": ("syn.cond", "X = (1,\nY = 2 +\n"),
@@ -218,6 +219,9 @@ INC_FILES = {
 def include_line(how, pkg):
     if how == "ok":
         return "include('common.cond')"
+    if how == "ok_kw":
+        # the reference documents the argument by name: include(path)
+        return "include(path='common.cond')"
     if how == "ok_func":
         return "include('funcs.cond')\nassert scaled(2) == 8 and SIZES == [0, 4] and join('x') == 'd/x'"
     if how == "ok_abs":
@@ -306,7 +310,7 @@ def file_verdict(case, pkg):
     for s in case["files"][pkg]:
         if s["t"] == "include":
             how = s["how"]
-            if how in ("ok", "ok_abs", "ok_func"):
+            if how in ("ok", "ok_abs", "ok_func", "ok_kw"):
                 env.update({"THREADS": 3, "NAMES": ["x", "y"]})
                 continue
             if how == "outside" and pkg:
@@ -421,8 +425,8 @@ def run_case(case):
         v = []
         tid = "//%s:%s" % tuple(case["target"])
         nfault = sum(1 for stmts in case["files"].values() for s in stmts
-                     if s["t"] == "py" or (s["t"] == "include" and s["how"] not in ("ok", "ok_abs", "ok_func")))
-        if any(s["t"] == "include" and s["how"] in ("ok", "ok_abs", "ok_func") for stmts in case["files"].values() for s in stmts):
+                     if s["t"] == "py" or (s["t"] == "include" and s["how"] not in ("ok", "ok_abs", "ok_func", "ok_kw")))
+        if any(s["t"] == "include" and s["how"] in ("ok", "ok_abs", "ok_func", "ok_kw") for stmts in case["files"].values() for s in stmts):
             labels.add("include_ok")
         for stmts in case["files"].values():
             for s_ in stmts:
